@@ -266,7 +266,9 @@ func (p *Path) inHarnessCode(th *Thread) bool {
 	if !pos.IsValid() {
 		return false
 	}
-	return strings.Contains(p.wk.w.fset.Position(pos).Filename, "zz_verif")
+	fn := p.wk.w.fset.Position(pos).Filename
+	// harness files and the engine's Go-bodied models (sync.Map, sync.Once, ...) are not code under test
+	return strings.Contains(fn, "zz_verif") || strings.Contains(fn, "/zzverif/")
 }
 
 func (p *Path) guardViolation(th *Thread, what string, mu string, write bool) {
